@@ -8,7 +8,7 @@ LEVEL = 'exploration'
 B = [0, 1, 2, 0x7F, 0x80, 0xFF, 0x100, 0xFFFF, 0x10000, 2**31 - 1, 2**31, 2**32 - 2, 2**32 - 1]
 RULE = ('list: every sequence of 0..3 entries from a pool of boundary entries (names a, 255 x b, \\xff\\x00/, UTF-8; mode/size/mtime in {0,1,2^31,2^32-1}) x ALL sets '
         'of <=k cut positions of the DENT/DONE reply stream (short-name listings) or <=1 (all listings) + all-1-byte + 300-entry listings x WRTE sizes; stat: all '
-        '13^3 boundary triples x every cut position of the 16-byte reply, <=2 cuts on a subset; both twins; the same with the reply WRTEs overtaking the OKAY of the request (legal per protocol.txt); oracle: return value == model filesystem, '
+        '13^3 boundary triples x every cut position of the 16-byte reply, <=2 cuts on a subset; both twins; the same with the reply WRTEs overtaking the OKAY of the request (legal per protocol.txt); the same requests after a reply that was cut off in mid-record; oracle: return value == model filesystem, '
         'stream closed, all device packets consumed; non-trivial = at least one entry / any stat; distinct = distinct (listing or triple, cut set, twin)')
 ASSUMPTIONS = ['adbsim sync service follows SYNC.TXT', 'field values come from a 13-value boundary alphabet, names from a 5-name pool']
 
@@ -81,6 +81,29 @@ def run_stat(params, ch):
         s.finish()
 
 
+def run_retry(params, ch):
+    """The device service dies in the middle of a list/stat reply (CLSE instead of the next WRTE); the same request on the same
+    connection afterwards must return exactly the model's data (nothing of the aborted reply may leak into it)."""
+    ents = listing(POOL, 3, params['idx'])
+    cfg = {'fs': {'dirs': {b'/d': ents}, 'stats': {b'/s': (0o100644, 0x12345678, 0x9ABCDEF0)}}, 'cut': {'size': params['wrte']}, 'die': {'stream': 0, 'after': params['k']}}
+    s = Session(ch, cfg, twin=params['twin'], eps=0.001)
+    try:
+        s.op(('connect',))
+        kw = {'transport_timeout_s': 0.05, 'read_timeout_s': 0.2}
+        first = ('list', '/d', kw) if params['first'] == 'list' else ('stat', '/s', kw)
+        r1 = s.op(first)
+        viol = []
+        for name in ('list', 'stat', 'list'):
+            r = s.op(('list', '/d', kw) if name == 'list' else ('stat', '/s', kw))
+            want = ('ok', [(bytearray(e[0]), e[1], e[2], e[3]) for e in ents]) if name == 'list' else ('ok', (0o100644, 0x12345678, 0x9ABCDEF0))
+            if r != want:
+                viol.append({'msg': '%s after an aborted %s (service died after %d WRTEs of %d bytes) returned %r' % (name, params['first'], params['k'], params['wrte'], r if len(repr(r)) < 200 else repr(r)[:200])})
+                break
+        return {'outcome': (r1[:2],), 'viol': viol, 'nontrivial': tuple(sorted((k, str(v)) for k, v in params.items())), 'sample': dict(params, first_result=r1[:2]), 'trans': len(s.env.events)}
+    finally:
+        s.finish()
+
+
 def parts(tier):
     k = 2 if tier == 'quick' else 3
     twins = ('sync', 'async')
@@ -105,4 +128,7 @@ def parts(tier):
     out.append(Part('stat-reply-before-okay', sc, run_stat, {'*': None}, what='stat reply overtakes the OKAY of the request', bound='%d triples x every single cut' % len(sc)))
     sc = [{'triple': (a, b, c), 'twin': t, 'kmax': k} for (a, b, c) in ((0, 0, 0), (2**32 - 1, 2**31, 1), (0o100644, 0x10000, 0xFF)) for t in twins]
     out.append(Part('stat-x-cuts', sc, run_stat, {'*': None}, split=1, what='selected triples, all cut sets', bound='<=%d cuts' % k))
+    sc = [{'twin': t, 'first': f, 'k': k, 'wrte': w, 'idx': i} for t in twins for f in ('list', 'stat') for k in (0, 1, 2, 3, 5) for w in (3, 8, 11, 16, 25) for i in (1, 40, 111)]
+    out.append(Part('retry-after-aborted-reply', sc, run_retry, what='list/stat whose reply is cut off in mid-record, then list, stat, list again on the same connection', bound='%d cases' % len(sc),
+                    min_outcomes=1))
     return out
